@@ -56,6 +56,7 @@ class Unit:
     registry: Any = None
     allowed_raises: Any = None  # list of exception class names allowed to escape (None = not checked)
     all_params: bool = False  # parameters of the real signature that `params` does not list are symbolic too (not defaulted)
+    native_script: str | None = None  # replay/units/<script>: native replay of a composed unit (args of ctx.args, concretised)
     may_always_raise: bool = False  # the unit is expected to have no normal-return path (vacuity guard off)
     max_paths: int = 4000
     run: Any = None  # custom runner(ctx) replacing the plain call (for traces)
@@ -180,7 +181,7 @@ SPEC_BUILTINS = {
 
 
 # ------------------------------------------------------------------ count axioms (Venn-region encoding)
-def count_axioms(st: State, quantified: bool = False, max_conds: int = 16, meta: list | None = None):
+def count_axioms(st: State, quantified: bool = False, max_conds: int = 48, meta: list | None = None):
     """Facts relating the count terms of a path: for the conditions c_1..c_k counted over the same index
     range, every feasible Boolean combination (atom) gets a non-negative cardinality; the atoms partition the
     range; each count is the sum of its atoms; a non-empty atom has a witness index; explicit index terms
@@ -197,8 +198,8 @@ def count_axioms(st: State, quantified: bool = False, max_conds: int = 16, meta:
         g0 = z3.Int(fresh_name("ga"))
         conds = [z3.substitute(r.cond, (r.g, g0)) for r in recs]
         if len(conds) > max_conds:
-            if meta is not None:
-                meta.append(("skipped", key, None))
+            if meta is not None:  # no axioms for this group: its counts are still checked exactly in a counter-model
+                meta.extend((r.term, (lambda idx, _r=r: z3.substitute(_r.cond, (_r.g, idx))), hi) for r in recs)
             continue
         bs = [z3.Bool(fresh_name("atom")) for _ in conds]
         s = z3.Solver()
@@ -226,7 +227,7 @@ def count_axioms(st: State, quantified: bool = False, max_conds: int = 16, meta:
                 break
         if atoms is None:
             if meta is not None:
-                meta.append(("skipped", key, None))
+                meta.extend((r.term, (lambda idx, _r=r: z3.substitute(_r.cond, (_r.g, idx))), hi) for r in recs)
             continue
         ns = [fresh_int("n_atom") for _ in atoms]
         out.append(z3.Sum(ns) == z3.If(hi > 0, hi, 0) if ns else (z3.If(hi > 0, hi, 0) == 0))
@@ -236,8 +237,8 @@ def count_axioms(st: State, quantified: bool = False, max_conds: int = 16, meta:
             terms = [n for n, a in zip(ns, atoms) if a[i]]
             out.append(r.term == (z3.Sum(terms) if terms else z3.IntVal(0)))
 
-        def atom_at(a, idx):
-            return z3.And(*[(z3.substitute(c, (g0, idx)) if v else z3.Not(z3.substitute(c, (g0, idx)))) for c, v in zip(conds, a)])
+        def atom_at(a, idx, _conds=tuple(conds), _g0=g0):  # (bound now: the closure is called after the loop has moved on)
+            return z3.And(*[(z3.substitute(c, (_g0, idx)) if v else z3.Not(z3.substitute(c, (_g0, idx)))) for c, v in zip(_conds, a)])
 
         explicit = []
         for path in st.index_terms.get(lid, []):
@@ -259,7 +260,6 @@ def count_axioms(st: State, quantified: bool = False, max_conds: int = 16, meta:
 def _small_range_facts(meta, bound: int = 5) -> list:
     """Restriction to ranges of at most `bound` elements, with every region's cardinality spelled out over the indices of
     such a range (complete for it): any model of the restricted query is a model of the full one."""
-    meta = [m for m in meta if not isinstance(m[0], str)]
     out = [hi <= bound for hi in {h.get_id(): h for _n, _a, h in meta}.values()]
     for n, atom, hi in meta:
         out.append(n == z3.Sum([z3.If(z3.And(j < hi, atom(z3.IntVal(j))), 1, 0) for j in range(bound)] + [z3.IntVal(0)]))
@@ -271,8 +271,6 @@ def _model_respects_counts(model, meta, limit: int = 300):
     the region; False: it is not (the model is spurious); None: not checkable (range too large / not a number)."""
     if model is None:
         return None
-    if any(isinstance(m[0], str) for m in meta):
-        return None  # some count group has no axioms at all (too many conditions / enumeration gave up)
     for n, atom, hi in meta:
         try:
             nv = model.eval(n, model_completion=True).as_long()
@@ -556,8 +554,8 @@ def _discharge(name: str, st: State, goal, timeout_ms: int, pi: int) -> OblResul
         # counter-model is believed it must also respect the quantified emptiness facts: check them in the model itself
         # (finite: the model fixes the range), else retry with the quantified axioms
         ok = _model_respects_counts(model, meta)
-        if ok is None:
-            # look for a small counter-model (ranges of at most 8 elements), which can be checked exhaustively
+        if ok is not True:
+            # look for a small counter-model (ranges of at most 5 elements, cardinalities spelled out per index)
             small = _small_range_facts(meta)
             st3, be3, m3, _d3 = smt.prove(hyps + ax + small, goal, timeout_ms)
             if st3 == "failed" and _model_respects_counts(m3, meta) is True:
@@ -567,8 +565,10 @@ def _discharge(name: str, st: State, goal, timeout_ms: int, pi: int) -> OblResul
             status2, backend2, model2, detail2 = smt.prove(hyps + ax2, goal, timeout_ms)
             if status2 != "failed":
                 status, backend, model, detail = status2, backend2 + "+q", model2, detail2
-            elif any(isinstance(m[0], str) for m in meta):
-                status, detail = "undecided", "counter-model not trusted: a group of count terms has no axioms (too many conditions or enumeration timed out)"
+            elif _model_respects_counts(model2, meta) is True:
+                model, backend = model2, backend2 + "+q"
+            else:
+                status, detail = "undecided", "counter-model not trusted: it could not be checked against the exact cardinalities of the count terms"
     return OblResult(name, status, backend, time.time() - t0, detail, model, pi)
 
 
@@ -641,6 +641,9 @@ def _after_failure(unit: Unit, ob: Obl, ctx: Ctx, st: State, goal, r: OblResult,
         r.replay_verdict = "violates" if verdict == "violates" else "none"
         r.detail = out
         return
+    if unit.native_script is not None and r.model is not None and goal is not None:
+        if _replay_with_script(unit, ctx, st, goal, r, spec, fname, timeout_ms):
+            return
     replayable = unit.replayable and r.model is not None and unit.run is None and (post is not None or ob.check is None)
     if replayable:
         cur = ctx.I.st
@@ -725,6 +728,54 @@ def _after_failure(unit: Unit, ob: Obl, ctx: Ctx, st: State, goal, r: OblResult,
         r.status = "violation"
         r.replay_verdict = "none"
     r.model = None
+
+
+def _replay_with_script(unit, ctx, st, goal, r, spec, fname, timeout_ms) -> bool:
+    """Native replay of a composed unit (one whose run is several real calls): the unit's own harness under replay/units/
+    rebuilds the inputs from the counter-model and repeats the composition on the real code.  Up to four models are tried.
+    Returns True when a verdict was reached (violates / spurious)."""
+    import json
+    import os
+    import subprocess
+
+    from .concretize import Concretizer
+
+    script = os.path.join(os.path.dirname(os.path.dirname(__file__)), "replay", "units", unit.native_script)
+    spec["replay_cmd"] = f"/venv/bin/python replay/units/{unit.native_script} {fname}"
+    model, blocked, verdict, out = r.model, [], None, ""
+    for attempt in range(4):
+        try:
+            cz = Concretizer(ctx.I, model)
+            spec["args"] = {n: cz.value(v) for n, v in ctx.args.items()}
+        except Exception as e:  # noqa
+            spec["concretize_error"] = f"{type(e).__name__}: {e}"
+            return False
+        spec["model"] = _model_text(model)
+        with open(fname, "w") as fh:
+            json.dump(spec, fh, indent=1, default=str)
+        try:
+            p = subprocess.run(["/venv/bin/python", script, fname], capture_output=True, text=True, timeout=120, env=dict(os.environ))
+        except subprocess.TimeoutExpired:
+            return False
+        out = (p.stdout or "").strip()[-700:] or (p.stderr or "").strip()[-700:]
+        verdict = {0: "holds", 1: "violates"}.get(p.returncode, "error")
+        if verdict != "holds":
+            break
+        model = _another_model(st, goal, model, timeout_ms, blocked)
+        if model is None:
+            break
+    spec["native"] = {"verdict": verdict, "output": out}
+    with open(fname, "w") as fh:
+        json.dump(spec, fh, indent=1, default=str)
+    if verdict == "error":
+        return False
+    r.replay, r.replay_verdict, r.detail, r.model = fname, verdict, out, None
+    if verdict == "violates":
+        r.status = "violation"
+    else:
+        r.status = "undecided"
+        r.detail = "counter-model is spurious: the real code satisfies the postcondition on it; " + out
+    return True
 
 
 def _model_text(m) -> dict:
